@@ -16,7 +16,7 @@ import os
 import random
 
 MISSING_TOKENS_TEXT = ["-999", "nan", "NaN", "NA", "missing", "-", "-999.0"]
-NC_MISSING_ENC = ["fill", "m999", "nan", "big", "masked"]
+NC_MISSING_ENC = ["fill", "m999", "nan", "big", "masked", "customfill", "mvattr"]
 
 BOUNDARY_TIMES = [
     946684800,   # 2000-01-01 00 (Sat)
@@ -478,6 +478,8 @@ def write_nc(inp, path, rng=None):
             v[:] = np.array([x[3] for x in locs], "f4")
 
         FILL = netCDF4.default_fillvals["f4"]
+        CUSTOM_FILL = -9999.0       # a per-variable _FillValue
+        MV_ATTR = -99.0             # a value declared missing by the variable's missing_value attribute
 
         def put(name, dims, getter, extra=None):
             shape = [T, L, S] + ([extra] if extra else [])
@@ -498,6 +500,10 @@ def write_nc(inp, path, rng=None):
                                 enc = r.choice(encs)
                                 if enc == "fill":
                                     arr[idx] = FILL
+                                elif enc == "customfill":
+                                    arr[idx] = CUSTOM_FILL
+                                elif enc == "mvattr":
+                                    arr[idx] = MV_ATTR
                                 elif enc == "m999":
                                     arr[idx] = -999
                                 elif enc == "nan":
@@ -508,7 +514,12 @@ def write_nc(inp, path, rng=None):
                                     mask[idx] = True
                             else:
                                 arr[idx] = vv
-            var = f.createVariable(name, "f4", dims)
+            if "customfill" in encs:
+                var = f.createVariable(name, "f4", dims, fill_value=CUSTOM_FILL)
+            else:
+                var = f.createVariable(name, "f4", dims)
+            if "mvattr" in encs:
+                var.missing_value = np.float32(MV_ATTR)
             var[:] = np.ma.masked_array(arr, mask)
 
         d3 = ("time", "leadtime", "location")
